@@ -59,6 +59,10 @@ func runC04(c *Ctx) {
 	R.Rule("C04.R4", "every URL-valued attribute allowed by UGCPolicy (href, cite, src) sits at one of the URL-checked positions of C03, and attributes without a value pattern are exactly those URL attributes")
 	R.Rule("C04.R6", "value patterns do not reject conforming values: every pattern UGCPolicy registers for an attribute (globally or on an element) accepts the conforming example values of spec/ugc_vocabulary.json for that attribute (exact DFA membership under MatchString semantics)")
 	R.Rule("C04.R5", "defaults: NewPolicy's skip-content set contains script, style, iframe, object, title, noscript, noembed, noframes, frameset, nostyle")
+	R.Rule("C04.R8", "documents of any size pass: the tokenizer runs in its default configuration (no SetMaxBuf / AllowCDATA / raw-text switches), so no token of a conforming document makes the sanitiser fail or change mode")
+	if sc4 := newSC(c, "C04.R8"); sc4 != nil {
+		c06TokenizerConfig(sc4, "C04.R8", "the tokenizer is reconfigured or handed on: a conforming document with a long token (or the construct the switch concerns) is no longer returned unchanged")
+	}
 	R.Rule("C04.R7", "URLs of conforming documents are not rejected: with URL checking on, validURL returns false only for a tabled reason — white space outside a data: URL, a parse error, a non-empty scheme not admitted by the scheme table / patterns / custom checks, or a scheme-less URL while relative URLs are off or the re-serialised URL is empty")
 	c03ValidURL(c, model.FindFields(c.P), "C04.R7")
 	R.Assume(TrustGo, "builder methods have their documented meaning (C17) and the sanitiser honours the tables (C01–C03); what an HTML5 parser builds from the output is NOT decided")
